@@ -1,7 +1,7 @@
 From Coq Require Import Extraction ExtrOcamlBasic.
-From QV Require Import Model.ZfStd Model.ZfReader Model.ZfParser.
+From QV Require Import Model.ZfStd Model.ZfReader Model.ZfParser Model.ZfRecOnly.
 Extraction Language OCaml.
 Separate Extraction
-  parse_all parser_new parser_next rdata_validate
+  parse_all parser_new parser_next rdata_validate ro_all ro_next
   parse_uint ipv4_from_str ipv6_from_str utf8_valid class_from_str type_from_str
   U8_MAX U16_MAX U32_MAX.
